@@ -191,6 +191,7 @@ def extract(F, c):
             visit_expr(b, stack); return
         pending = {}     # let var -> (range, closure def) for `let vars = (range).map(closure).collect().join(", ")`
         builders = {}
+        iters = {}
         for s in b['stmts']:
             if s['k'] == 'Let' and s['init'] is not None:
                 q = unwrap_pat(s['pat'])
@@ -199,12 +200,16 @@ def extract(F, c):
                     mp = [x for x in walk(init) if x['k'] == 'Call' and callee_decl(x) == 'std::iter::Iterator::map']
                     jn = [x for x in walk(init) if x['k'] == 'Call' and (callee_name(x) or '').endswith('::join')]
                     flt = [x for x in walk(init) if x['k'] == 'Call' and callee_decl(x) == 'std::iter::Iterator::filter']
+                    if mp and not jn:
+                        # an iterator kept in a local (`let cells = (0..n).map(|j| ..);`): remembered, read where it is consumed
+                        mc = map_chain(init, iters)
+                        if mc is not None: iters[q['var']] = init; continue
                     if mp and jn:
-                        rg = range_of(mp[0]['args'][0], cx)
-                        cl = [x for x in walk(mp[0]['args'][1]) if x['k'] == 'Closure']
-                        if rg is None or not cl: raise UUndec('list built from something other than a numeric range mapped through a closure', init.get('loc'))
+                        mc = map_chain(jn[0]['args'][0], iters)
+                        if mc is None: raise UUndec('list built from something other than a numeric range mapped through a closure', init.get('loc'))
+                        rg, chain = mc
                         sep = [x['value'] for x in walk(jn[0]['args'][1]) if x['k'] == 'Literal' and x.get('lit') == 'Str']
-                        pending[q['var']] = (rg, canon(cl[0]['def']), sep, dict(cx.names), dict(cx.defs), init.get('loc'))
+                        pending[q['var']] = (rg, chain if len(chain) > 1 else chain[0], sep, dict(cx.names), dict(cx.defs), init.get('loc'))
                         continue
                     if flt:
                         cl = [x for x in walk(flt[0]['args'][1]) if x['k'] == 'Closure']
@@ -231,6 +236,22 @@ def extract(F, c):
             if builders and fill_loop(e, builders, pending): continue
             visit_expr(e, stack, pending)
         if b['expr'] is not None: visit_expr(b['expr'], stack, pending)
+    def map_chain(e, iters, depth=0):
+        """(range, [closure defs, innermost first]) of `RANGE.map(c1).map(c2)...[.collect()]`, reading iterators kept in locals"""
+        x = strip(e)
+        if depth > 6: return None
+        if x['k'] == 'Block' and not x['stmts'] and x['expr'] is not None: return map_chain(x['expr'], iters, depth + 1)
+        if x['k'] in ('VarRef', 'UpvarRef') and x['var'] in iters: return map_chain(iters[x['var']], iters, depth + 1)
+        if x['k'] == 'Call' and x['args'] and (callee_decl(x) in ('std::iter::Iterator::collect', 'std::iter::IntoIterator::into_iter', 'std::ops::Deref::deref', 'std::convert::AsRef::as_ref', 'std::borrow::Borrow::borrow') or (callee_name(x) or '').endswith('::as_slice')): return map_chain(x['args'][0], iters, depth + 1)
+        if x['k'] == 'Call' and callee_decl(x) == 'std::iter::Iterator::map' and len(x['args']) == 2:
+            cl = [y for y in walk(x['args'][1]) if y['k'] == 'Closure']
+            if not cl: return None
+            rg = range_of(x['args'][0], cx)
+            if rg is not None: return rg, [canon(cl[0]['def'])]
+            inner = map_chain(x['args'][0], iters, depth + 1)
+            if inner is None: return None
+            return inner[0], inner[1] + [canon(cl[0]['def'])]
+        return None
     def fill_loop(e, builders, pending):
         """`for m in RANGE { [lets] v.push(format!(..)) }` with v a list under construction: the same list as
         `(RANGE).map(|m| { [lets] format!(..) }).collect()`; registered under a synthetic closure"""
@@ -298,6 +319,16 @@ def extract(F, c):
             visit_block(e['then'], stack)
             stack_conds.pop()
             if e['else'] is not None: visit_block(e['else'], stack)
+            return
+        if e['k'] == 'Match' and e.get('source') == 'Normal':
+            # `match X { Some(ch) if guard => .., _ => .. }` reads like `if let Some(ch) = X { if guard { .. } }`
+            conds = stack_conds[-1] if stack_conds else []
+            for a in e['arms']:
+                extra = [{'k': 'Let', 'pat': a['pat'], 'expr': e['scrutinee'], 'loc': e.get('loc')}]
+                if a.get('guard') is not None: extra.append(a['guard'])
+                stack_conds.append(conds + extra)
+                visit_block(a['body'], stack)
+                stack_conds.pop()
             return
         if e['k'] == 'Match' and 'TryDesugar' in e.get('source', ''):
             inner = strip(e['scrutinee'])
@@ -436,12 +467,20 @@ def rule_sudoku(F, R):
     if not tail_true: R.violation('sudoku_gen::main / U / closing conjunct', 'U', 'the conjunction must be closed by `true`')
 
 def classify(F, c, em, gcx):
-    ct = c.ithir.get(em['closure'])
-    if ct is None: raise UUndec('closure body not found')
+    chain = em['closure'] if isinstance(em['closure'], list) else [em['closure']]
     cx = Ctx(); cx.names = dict(em['names']); cx.defs = dict(em['defs'])
-    p = [unwrap_pat(x['pat']) for x in ct['params'][1:] if 'pat' in x]
-    if len(p) != 1 or p[0]['k'] != 'Binding': raise UUndec('list closure must take one index')
-    cx.names[p[0]['var']] = 'm'
+    carried = None          # value handed from one `.map(..)` stage to the next
+    for stage, cname in enumerate(chain):
+        ct = c.ithir.get(cname)
+        if ct is None: raise UUndec('closure body not found')
+        p = [unwrap_pat(x['pat']) for x in ct['params'][1:] if 'pat' in x]
+        if len(p) != 1 or p[0]['k'] != 'Binding': raise UUndec('list closure must take one index')
+        if stage == 0: cx.names[p[0]['var']] = 'm'
+        else: cx.defs[p[0]['var']] = carried
+        if stage < len(chain) - 1:
+            b_ = ct['body']
+            while b_['k'] in ('Use', 'NeverToAny') or (b_['k'] == 'Block' and not b_['stmts'] and b_['expr'] is not None): b_ = b_['source'] if b_['k'] != 'Block' else b_['expr']
+            carried = poly_of(b_, cx)
     # local names inside the closure: `let row = m / root;`, `let (row, col) = (m / root, m % root);`
     in_lets = set()
     for b in walk(ct['body']):
